@@ -101,6 +101,12 @@ def print_axioms(prop, module, names, timeout=1200):
         res[m.group(1)] = []
     return res, out[-3000:]
 
+def leanchecker(modules, timeout=3000):
+    """independent re-check of the compiled .olean files (thorough tier); (ok, seconds, tail of output)"""
+    t0 = time.time()
+    p = subprocess.run(['lake', 'env', 'leanchecker'] + modules, cwd=LEAN, capture_output=True, text=True, timeout=timeout)
+    return p.returncode == 0, round(time.time() - t0, 1), (p.stdout + p.stderr)[-600:]
+
 LOOP_TMPL = '''{imports}
 /-! GENERATED by tools/check.py: model driver for {prop} (ops: {ops}). -/
 open Lean Drv
